@@ -26,6 +26,8 @@ for d in dirs:
     meta_path = f'{d}/meta.json'
     meta = json.load(open(meta_path)) if os.path.exists(meta_path) else {}
     notes = open(f'{d}/NOTES.md').read() if os.path.exists(f'{d}/NOTES.md') else ''
+    if meta.get('detected_thorough'):
+        print(name, 'quick exit', code, '(thorough-only seed, meta kept)'); rows.append((name, 1, 'thorough')); continue
     meta.update({
         'id': name, 'breaks_property': pid,
         'origin': 'written by an independent sub-agent that saw only the property text and a scratch worktree of /repo',
